@@ -179,3 +179,68 @@ inline void drive_c13()
     vh::sample("api", std::string(Z::type_string()) + ": " + (Z::has_partner ? "11" : "10") + " members compiled and run", 3);
 }
 }  // namespace zapi
+
+// ------------------------------------------------------------------ C15: one "program" per stack
+// construction, lookup, write (array-backed), copy, assignment, IO -- every value read goes into a
+// digest that must be identical in every build configuration.
+namespace zapi {
+template <class Z>
+inline void drive_c15()
+{
+    if (!vh::selected(Z::name())) return;
+    using F = typename Z::field_t;
+    vh::Rng rng(vh::st().seed * 373587883 + vh::fnv(Z::name()));
+    model::P m = Z::make_model();
+    uint64_t dig = 1469598103934665603ull;
+    auto read_all = [&](const F & f, unsigned n) {
+        typename F::view_t v(f);
+        unsigned hits = 0;
+        for (unsigned q = 0; q < n; ++q) {
+            model::Vec mc;
+            auto c = zoo::propose<F>(rng, mc);
+            model::Result r = m->at(mc);
+            if (!r.ok) continue;  // the interpreter's domain filter guarantees in-domain arguments
+            ++hits;
+            vh::set_case("%s program c=%s", Z::name(), zoo::show_q(mc).c_str());
+            typename F::output_t out = v.at(c);
+            for (std::size_t j = 0; j < zoo::traits<F>::M; ++j) {
+                auto x = out[j];
+                dig = vh::mix(dig, x);
+                vh::ev();
+                if (!((model::Q)x == r.v[j])) vh::viol("program:wrong-value", std::string(Z::type_string()) + " c=" + zoo::show_q(mc));
+            }
+        }
+        return hits;
+    };
+    vh::set_case("%s program: construct", Z::name());
+    F f = Z::make();
+    Z::fill(f);
+    unsigned hits = read_all(f, 80);
+    F g(f);
+    hits += read_all(g, 30);
+    F a = Z::make();
+    a = g;
+    hits += read_all(a, 30);
+    F b(std::move(a));
+    hits += read_all(b, 30);
+    std::string bytes = zio::dump<Z>(b);
+    dig = vh::fnv(bytes.data(), bytes.size(), dig);
+    std::istringstream is(bytes, std::ios::binary);
+    F l(is);
+    hits += read_all(l, 30);
+    g = std::move(l);
+    hits += read_all(g, 30);
+    if constexpr (Z::has_partner) {
+        using P = typename Z::partner;
+        typename P::field_t pf = P::make();
+        P::fill_like(pf);
+        F c(pf);
+        hits += read_all(c, 30);
+    }
+    std::printf("@DIGEST %s\t%016llx\n", Z::name(), (unsigned long long)dig);
+    vh::stat("programs");
+    vh::stat("values_digested", hits);
+    if (hits >= 8) vh::nontrivial(vh::fnv(Z::name()));
+    vh::sample("program", std::string(Z::type_string()) + " digest=" + std::to_string(dig) + " over " + std::to_string(hits) + " in-domain lookups + dump bytes", 3);
+}
+}  // namespace zapi
